@@ -152,6 +152,40 @@ CHECKS = {
         note='Trusted: Coq kernel; gen_tables.py; extraction + OCaml; differential harness. The parse step between bytes and hello object is '
              'tied by the C06 decode correspondence, not modelled.',
         technique='Coq proof (partial statement + refutation of the full one + stability); three-way differential run implementation / model / reference'),
+    'C07': dict(
+        category='proof',
+        text='Coq theorems: the SSH padding rule for every payload length (packet_length counts padding-length byte + payload + padding, '
+             'padding 4..255 - in fact 4..11 -, total a multiple of 8); what compose_ssh_mpint emits for any non-negative integer IS the RFC '
+             '4251 mpint of an independent specification (model = spec), is canonical in the RFC\'s words and parses back; splitting a '
+             'name-list at commas and re-joining is the identity on the wire string; the specification strings decode back. Tie: packets '
+             'for all payload lengths 0..1999 (0..35000 thorough), boundary and random mpints, KEXINIT messages and RSA / Ed25519 key blobs: '
+             'implementation vs the Coq specification, both directions.',
+        design_ref='DESIGN.md section 6, C07',
+        note='Trusted: Coq kernel; gen_tables.py; extraction + OCaml; differential harness; RFC transcription. Banner, DH/GEX messages, '
+             'DSS/ECDSA keys and OpenSSH certificates are covered by the C01/C05 sweeps, not by the specification.',
+        technique='Coq proof (padding rule by lia, mpint model = RFC specification, name-list identity); implementation-vs-specification differential run'),
+    'C08': dict(
+        category='proof',
+        text='Coq theorems: the model of DnsRecordDnskey.key_tag equals the RFC 4034 Appendix B byte loop for every RDATA of even length '
+             '(induction two bytes at a time), the repaired function for every RDATA, B.1 for algorithm 1; the full statement is refuted '
+             'for odd lengths (known finding: the suite pins a key tag of an odd-length key); the specification of names and DS RDATA is '
+             'coherent. Tie: DS, MX, names, TXT, RRSIG and RSA DNSKEY records composed by the implementation vs the Coq specification; key '
+             'tags compared three ways (implementation, model, Appendix B) on odd and even RDATA.',
+        design_ref='DESIGN.md section 6, C08',
+        note='Trusted: Coq kernel; extraction + OCaml; differential harness; RFC transcription. DSA/ECDSA/EdDSA/GOST DNSKEY layouts are '
+             'covered by the C01/C05 sweeps only; IDNA beyond ASCII labels is an oracle.',
+        technique='Coq proof (key tag = RFC 4034 App. B, partial + refuted + repaired-full); implementation-vs-specification differential run'),
+    'C16': dict(
+        category='proof',
+        text='Coq theorems: for any four name-list strings on the wire the text the model of _hassh hashes is exactly '
+             'kex;encryption;mac;compression as they appear on the wire (split/join identity: order and unknown names preserved); the mpints '
+             'inside host-key blobs are the RFC 4251 mpints. Tie: real digests - hassh / hassh_server vs MD5 of the text the Coq reference '
+             'extracts from specification-encoded KEXINIT bytes; fingerprints (SHA-256/SHA-1 base64, MD5 colon-hex) and known_hosts of RSA '
+             'and Ed25519 host keys vs digests / base64 of the specification\'s RFC 4253 blob.',
+        design_ref='DESIGN.md section 6, C16',
+        note='Trusted: Coq kernel; extraction + OCaml; hashlib and base64 (oracles on both sides). DSS/ECDSA keys and certificates not in the '
+             'specification yet.',
+        technique='Coq proof (hashed pre-image = wire bytes); differential run with real digests'),
 }
 
 NOT_YET = {}
